@@ -31,6 +31,8 @@ Check(x) ==
     ELSE IF r.exc = "" THEN
          (IF x.bat.exc # "" THEN "C11.SpuriousFailure" ELSE IF x.bat.results # r.results THEN "C11.ResultsDiffer" ELSE "")
     ELSE IF x.bat.exc # r.exc THEN "C11.NotOwnException"
+    \* fp: class, args and attributes of the exception the caller caught; the batch must deliver the one the single call delivers
+    ELSE IF x.bat.fp # x.seq.fp THEN "C11.NotOwnException.content"
     ELSE IF x.bat.where = "position" /\ (x.bat.pos # r.pos \/ x.bat.results # r.results) THEN "C11.ResultsDiffer"
     ELSE ""
 Step == /\ l = 1 /\ l' = 2 /\ t' = t /\ bad' = Check(Tr) /\ UNCHANGED <<batch, i, journal, results, failed>>
